@@ -208,6 +208,10 @@ var faultTemplates = []string{
 	"root packet P { u8 k, match k as b { 1: P, }, }",
 	"root packet P { A a, }\npacket A { B b, }\npacket B { A a, }",
 	"root packet P { P p, }",
+	"root packet P { In { P p, }, }",
+	"root packet P { A a, }\npacket A { In { P back, }, }",
+	"root packet P { In { u8 k, match k as b { 1: P, }, }, }",
+	"root packet P { In { In2 { A a, }, }, }\npacket A { In3 { P p, }, }",
 	"root packet P { In { A a, }, }\npacket A { u8 x, }",
 	"root packet P { In { u8 k, match k as b { 1: A, }, }, }\npacket A { u8 x, }",
 	"root packet P { In { In2 { u8 z, }, }, repeat In3 { string s, }, }",
